@@ -288,6 +288,11 @@ func (e *Env) observe(kind string, op *Op, built *Built, res *abci.ResponseDeliv
 	si := &StepInfo{Seq: e.seqNo, Kind: kind, Height: e.Blk.Height, Op: op, Built: built, Res: res, Events: evs, Prev: prev, Cur: cur, TxBytes: txb}
 	si.OK = res == nil || res.Code == 0
 	si.Edges, si.Minted, si.Burned = parseBank(evs)
+	if e.Verbose && len(si.Edges) > 0 && kind != "tx" {
+		for _, ed := range si.Edges {
+			e.logf("h=%d %s edge %s -> %s : %s", si.Height, kind, fmtAddr(ed.From), fmtAddr(ed.To), ed.Amt)
+		}
+	}
 	for _, o := range e.Oracles {
 		o.Step(e, si)
 	}
